@@ -11,6 +11,10 @@ Open Scope Z_scope.
 (* The model is the tree with the fixes 1f71793 (pool transactions named like a built-in are skipped)
    and fe583b6 (cost comparisons against the remaining budget).  Before them the statement was false
    for pools with a built-in function name or a math.MaxInt cost; it now holds for them too.
+   Time admission: generator (validateTransaction) and verifier (ValidateWrtTimeForBlock) are the same
+   function bg_within (bc_bdate cfg) (bt_cdate t) (bc_tol cfg) of the block's creation date, the
+   transaction's creation date and the tolerance; the wall clock is not an input of the model (the
+   engine checks on the real code that included transactions satisfy it for the real block date).
    Hypotheses, spelled out:
    [bg_pool_ok pool]   every pool transaction passed admission (bt_valid: hash, signature, ids), the cost
                        EstimateTransactionCostFee hands to the pool iteration equals the cost
